@@ -18,7 +18,11 @@ RULE = (
     "parse_jaqal_output_list as ints and as strings and (n <= 6) through an emulated basis-state preparation (X on "
     "the set bits) - exhaustive over outcomes.  renormalise: programs whose gates are scaled by 1 + e, "
     "|e| <= 4e-7 (inside the documented clip-and-renormalise tolerance) must still report probabilities >= 0 that "
-    "sum to one within 1e-10.  Non-trivial = n >= 2 and some outcome whose bit string is not a palindrome. "
+    "sum to one within 1e-10.  long-runs: one subcircuit visited 127..70003 times (the boundaries of the 8-, 15- and "
+    "16-bit integer types +-2; flat loop, nested loops, or a subcircuit block whose repetition count is an "
+    "annotation), (nearly) all readouts showing one outcome, through parse_jaqal_output_list and (sometimes) the "
+    "emulator: one readout per visit, all views consistent, frequencies equal to a recount of the readouts (no "
+    "counter wraps or saturates).  Non-trivial = n >= 2 and some outcome whose bit string is not a palindrome. "
     "distinct = (text, outputs)."
 )
 ASSUMPTIONS = ["the int <-> string convention is the one documented in core/result.py: qubit 0 = least significant bit = leftmost character"]
@@ -210,6 +214,81 @@ def _renorm_gen(ch):
     return {"n": n, "e": ch.pick([1, -1]) * ch.pick([1e-9, 3e-9, 1e-8, 1e-7, 4e-7, 0.0]), "pattern": [ch.int(0, 1) for _ in range(ch.int(1, 5))]}
 
 
+# ------------------------------------------------------------------------------ long runs
+
+BOUNDARIES = [127, 128, 255, 256, 257, 32767, 32768, 65535, 65536, 65537, 70001]
+
+
+def _long_gen(ch):
+    n = ch.int(1, 3)
+    shots = ch.pick(BOUNDARIES) + ch.pick([0, 0, 0, 1, 2])
+    # one dominant outcome (so that a single counter crosses the boundary), a few others mixed in
+    dom = ch.int(0, 2**n - 1)
+    stray = [[ch.int(0, shots - 1), ch.int(0, 2**n - 1)] for _ in range(ch.int(0, 4))]
+    shape = ch.pick(["loop", "nested", "subcircuit-count"])
+    return {"n": n, "shots": shots, "dominant": dom, "stray": stray, "shape": shape, "emulate": shots <= 40000 and ch.int(0, 3) == 0, "np_seed": ch.int(0, 10**6)}
+
+
+def long_runs(case):
+    """Counters must not wrap or saturate: runs whose length sits at the boundaries of the
+    8/15/16-bit integer types, with (nearly) all readouts showing one outcome."""
+    from jaqalpaq.core.result import parse_jaqal_output_list
+    from jaqalpaq.emulator import run_jaqal_circuit
+
+    n, shots, dom = case["n"], case["shots"], case["dominant"]
+    if not (1 <= n <= 3 and 1 <= shots <= 80000 and 0 <= dom < 2**n):
+        raise Skip()
+    xs = "".join(f"X q[{i}]\n" for i in range(n) if (dom >> i) & 1)
+    if case["shape"] == "nested":
+        a = max(1, shots // 7)
+        text = f"register q[{n}]\nloop 7 {{ loop {a} {{ prepare_all\n{xs}measure_all }} }}\nloop {shots - 7 * a} {{ prepare_all\n{xs}measure_all }}\n"
+        nsub = 2
+    elif case["shape"] == "subcircuit-count":
+        # the repetition count of a subcircuit is an annotation: ONE readout per visit
+        text = f"register q[{n}]\nloop {shots} {{ subcircuit {shots} {{ {xs.replace(chr(10), '; ')} }} }}\n"
+        nsub = 1
+    else:
+        text = f"register q[{n}]\nloop {shots} {{ prepare_all\n{xs}measure_all }}\n"
+        nsub = 1
+    text = text.replace("{  }", "{ }")
+    nat = gates.make_gates(1)
+    st_, c = guard(parse, text, inject_pulses=nat, what="parse")
+    if st_ == "err":
+        raise Violation("rejected-valid-program", f"{c}\n{text}")
+    outs = [dom] * shots
+    for i, v in case["stray"]:
+        if 0 <= i < shots and 0 <= v < 2**n:
+            outs[i] = v
+    ctx = f"shots {shots}, dominant outcome {dom}, strays {case['stray']}\n--- program:\n{text}"
+    results = []
+    st_, ri = guard(parse_jaqal_output_list, c, list(outs), what="parse_jaqal_output_list(ints)")
+    if st_ == "err":
+        raise Violation("rejected-output-list", f"{ri}\n{ctx}")
+    results.append(("output-ints", ri, outs))
+    if case["emulate"]:
+        np.random.seed(case["np_seed"])
+        st_, re_ = guard(run_jaqal_circuit, c, what="run_jaqal_circuit")
+        if st_ == "err":
+            raise Violation("rejected-valid-program", f"{re_}\n{ctx}")
+        results.append(("emulator", re_, None))
+    for who, res, supplied in results:
+        if len(res.readouts) != shots or len(res.subcircuits) != nsub:
+            raise Violation("readout-count", f"[{who}] {len(res.readouts)} readouts, {len(res.subcircuits)} subcircuits for {shots} visits\n{ctx}", where=who)
+        _check_views(res, n, ctx, who)
+        got = [int(r.as_int) for r in res.readouts]
+        if supplied is not None and got != supplied:
+            raise Violation("readouts-differ-from-outputs", f"[{who}]\n{ctx}", where=who)
+        total = np.zeros(2**n)
+        for sc in res.subcircuits:
+            total += np.asarray(sc.relative_frequency_by_int, dtype=float)
+        want = np.bincount(got, minlength=2**n).astype(float)
+        if not np.array_equal(total, want):
+            raise Violation("frequencies-not-counts", f"[{who}] frequencies {total} but the readouts count {want}\n{ctx}", where=who)
+        if who == "emulator" and any(g != dom for g in got):
+            raise Violation("impossible-outcome", f"[{who}] basis state {dom} prepared, read {sorted(set(got))}\n{ctx}", where=who)
+    return {"nontrivial": shots >= 256, "classes": ["shots>=%d" % max(b for b in [1] + BOUNDARIES if b <= shots), "shape:" + case["shape"]] + (["emulated"] if case["emulate"] else []), "key": repr(case), "sample": {"text": text, "shots": shots}}
+
+
 def parts():
     import os
 
@@ -218,4 +297,5 @@ def parts():
         Part("renormalise", gen.cases(_renorm_gen), renormalise, quick=300, thorough=5000),
         Part("views", view_cases(7 if big else 5), views, quick=2500, thorough=40000, min_nontrivial=0.2),
         Part("all-outcomes", None, all_outcomes, quick=0, thorough=0, exhaustive=_enum, shards=6),
+        Part("long-runs", gen.cases(_long_gen), long_runs, quick=160, thorough=1500, min_nontrivial=0.3),
     ]
